@@ -17,7 +17,7 @@ from .. import symx, terms as T, absint
 from ..frontend import AnalysisError
 from ..rules import (ret_term, find_calls, outcomes, pure_polys, all_value_terms, radians_of_angle, timearg_scan, D2R)
 from .. import units, guards, effects
-from .c16 import datetime_julian
+from .c16 import datetime_julian, yearlen_sites
 
 MANIFEST = {
     "level": "other",
@@ -169,6 +169,7 @@ def finders(repo, rep, ref):
     OFFSETS = {"new": 0, "first": Fraction(1, 4), "full": Fraction(1, 2), "last": Fraction(3, 4), "perigee": 0, "apogee": Fraction(1, 2),
                "ascending": 0, "descending": Fraction(1, 2), "northern": 0, "southern": 0}
     nvar = 0
+    yl_sites = [0]
     for q, (targets, defarg, tol) in FINDERS.items():
         rep.fn(MOD, "Moon." + q)
         P_ref = 360.0 * 36525.0 / float(ref[defarg][1])
@@ -194,6 +195,13 @@ def finders(repo, rep, ref):
             T0 = (J0 - 2451545.0) / 36525.0
             # k = round(c * (year - y0), 0)
             X = rc[2]
+            if tg == targets[0]:
+                # fractional year feeding the lunation count: must not run backwards at New Year (R-YEARLEN, shared with C13/C16)
+                gd_ = [x for x in T.walk(X) if x[0] == "call" and x[1] == "Epoch.Epoch.get_date"]
+                nsites = yearlen_sites(repo, rep, MOD, "Moon." + q, X, ("idx", gd_[0], T.num(0))) if gd_ else 0
+                yl_sites[0] += nsites
+                if not nsites:
+                    rep.inconcl("R-YEARLEN", "Moon.Moon." + q, "no fractional year of the form Y + get_doy(Y, M, D)/N found in the lunation count")
             c, rest = T.split_coeff(X)
             y0 = None
             if rest[0] == "add":
